@@ -161,4 +161,10 @@ def check(ctx: Ctx) -> str:
     from . import c25
 
     ctx.run_imported("C25", {"R4"}, c25.check)
+    # the optimizer folds every sub-expression with the eval context it was given - the
+    # generic visitors forward their extra arguments, or the fold falls back to the parsing
+    # environment and skips the interception refusal (rule shared with C08)
+    from .c08 import visitor_forwarding_rule
+
+    visitor_forwarding_rule(ctx, "R5")
     return __doc__ or ""
